@@ -1,6 +1,8 @@
 /* C15 driver (real library, real threads, real futex): one timed entry point with one deadline per process.
    usage: deadline_driver <entry> <kind> <sec> <nsec>
-     entry: cv | mu | note | counter | waitn
+     entry: cv | mu | note | counter | waitn | cvn | mun | rmun | waitn5
+            (cvn / mun / rmun: cv wait, writer-mode and reader-mode mu wait WITH a cancel note that nobody ever notifies and that has
+             no expiry: an expired deadline must still give ETIMEDOUT, never ECANCELED; waitn5: five notes, the heap path of nsync_wait_n)
      kind : abs   -> deadline = {sec,nsec} literally
             rel   -> deadline = now + sec s + nsec ns  (sec may be negative)
             none  -> nsync_time_no_deadline
@@ -28,6 +30,8 @@ static nsync_mu mu;
 static nsync_cv cv;
 static int flag;
 static nsync_note note;
+static nsync_note cancel;   /* never notified, no expiry */
+static nsync_note more[4];
 static nsync_counter counter;
 static int cond_flag (const void *v) { return flag; }
 
@@ -69,6 +73,8 @@ int main (int argc, char **argv) {
 	} else { dl = nsync_time_no_deadline; }
 	with_helper = strcmp (kind, "abs") != 0 && strcmp (kind, "rel") != 0;
 	if (strcmp (entry, "note") == 0 || strcmp (entry, "waitn") == 0) note = nsync_note_new (NULL, nsync_time_no_deadline);
+	if (strcmp (entry, "waitn5") == 0) { int i; note = nsync_note_new (NULL, nsync_time_no_deadline); for (i = 0; i < 4; i++) more[i] = nsync_note_new (NULL, nsync_time_no_deadline); }
+	if (strcmp (entry, "cvn") == 0 || strcmp (entry, "mun") == 0 || strcmp (entry, "rmun") == 0) cancel = nsync_note_new (NULL, nsync_time_no_deadline);
 	if (strcmp (entry, "counter") == 0) counter = nsync_counter_new (1);
 	if (with_helper) pthread_create (&th, NULL, helper, NULL);
 	t0 = mono_ms ();
@@ -85,6 +91,32 @@ int main (int argc, char **argv) {
 		t1 = mono_ms (); early = before_deadline (dl);
 		is_timeout = (ret == ETIMEDOUT); is_event = (ret == 0 && flag);
 		nsync_mu_unlock (&mu);
+	} else if (strcmp (entry, "cvn") == 0) {
+		nsync_mu_lock (&mu);
+		ret = 0;
+		while (!flag && ret == 0) ret = nsync_cv_wait_with_deadline (&cv, &mu, dl, cancel);
+		t1 = mono_ms (); early = before_deadline (dl);
+		is_timeout = (ret == ETIMEDOUT); is_event = (ret == 0 && flag);
+		nsync_mu_unlock (&mu);
+	} else if (strcmp (entry, "mun") == 0) {
+		nsync_mu_lock (&mu);
+		ret = nsync_mu_wait_with_deadline (&mu, &cond_flag, NULL, NULL, dl, cancel);
+		t1 = mono_ms (); early = before_deadline (dl);
+		is_timeout = (ret == ETIMEDOUT); is_event = (ret == 0 && flag);
+		nsync_mu_unlock (&mu);
+	} else if (strcmp (entry, "rmun") == 0) {
+		nsync_mu_rlock (&mu);
+		ret = nsync_mu_wait_with_deadline (&mu, &cond_flag, NULL, NULL, dl, cancel);
+		t1 = mono_ms (); early = before_deadline (dl);
+		is_timeout = (ret == ETIMEDOUT); is_event = (ret == 0 && flag);
+		nsync_mu_runlock (&mu);
+	} else if (strcmp (entry, "waitn5") == 0) {
+		struct nsync_waitable_s w[5], *pw[5];
+		int i;
+		for (i = 0; i < 5; i++) { w[i].v = i == 2 ? note : more[i < 2 ? i : i - 1]; w[i].funcs = &nsync_note_waitable_funcs; pw[i] = &w[i]; }
+		ret = nsync_wait_n (NULL, NULL, NULL, dl, 5, pw);
+		t1 = mono_ms (); early = before_deadline (dl);
+		is_timeout = (ret == 5); is_event = (ret == 2);
 	} else if (strcmp (entry, "note") == 0) {
 		ret = nsync_note_wait (note, dl);
 		t1 = mono_ms (); early = before_deadline (dl);
